@@ -18,7 +18,6 @@ import zlib
 
 import tlc
 import tlaval
-from tlaval import FrozenDict
 
 SPEC = os.path.join(tlc.SPECS, 'Browser.tla')
 TRACE = os.path.join(tlc.SPECS, 'BrowserTrace.tla')
@@ -331,7 +330,8 @@ def _dk_class(case, op=None):
         for o in case['ops']:
             if o is op:
                 break
-            dks.append(dks[o['src'] - 1])
+            if o['kind'] == 'filter' or (o['kind'] == 'merge' and dks[o['src'] - 1] == dks[o['oth'] - 1]):
+                dks.append(dks[o['src'] - 1])       # only these operations create a browser
         idx = op['src'] - 1
         dk = dks[idx] if idx < len(dks) else 'results'
     else:
@@ -517,19 +517,20 @@ def configs(ctx):
                                OpKinds=['filter', 'merge']), ['filter', 'merge']),
         ]
     return [
-        ('scan3', _consts(MaxItems=3, MaxKw=2, MaxIE=2, MaxQ=3, DataKeys=both), ['filter']),
+        ('scan3', _consts(MaxItems=3, MaxKw=2, MaxIE=1, MaxQ=2, DataKeys=both), ['filter']),
+        ('scan2-q3', _consts(MaxItems=2, MaxKw=2, MaxIE=2, MaxQ=3, DataKeys=['mydata']), ['filter']),
         ('select3', _consts(MaxItems=3, OpKinds=['select']), ['select']),
-        ('chain', _consts(DataKeys=both, XVals=[], MaxKw=1, MaxQ=1, MaxOps=2, OpKinds=['filter', 'select', 'merge']),
+        ('chain', _consts(Keys=['k1'], XVals=[], DataKeys=both, MaxItems=3, MaxQ=1, MaxOps=2, OpKinds=['filter', 'select', 'merge']),
          ['filter', 'select', 'merge']),
         ('chain3', _consts(Keys=['k1'], XVals=[], DataKeys=both, MaxItems=1, MaxQ=1, MaxOps=3, OpKinds=['filter', 'merge']),
          ['filter', 'merge']),
-        ('bases2', _consts(Keys=['k1'], Vals=['v1'], XVals=[], DataKeys=both, GNames=['g0', 'g1', 'g2'], MaxBases=2, MaxItems=1, MaxQ=1,
+        ('bases2', _consts(Keys=['k1'], Vals=['v1'], XVals=[], DataKeys=both, GNames=['g1', 'g2'], MaxBases=2, MaxItems=1, MaxQ=1,
                            MaxOps=2, OpKinds=['filter', 'merge']), ['filter', 'merge']),
     ]
 
 
 # witnesses, checked with -continue in two runs: (constants, invariants that TLC must report violated)
-WITNESSES = [(dict(Keys=['k1'], XVals=[], DataKeys=['results', 'mydata'], MaxQ=1, MaxOps=2, OpKinds=['filter', 'select', 'merge']),
+WITNESSES = [(dict(Keys=['k1'], Vals=['v1'], XVals=[], DataKeys=['results', 'mydata'], MaxQ=1, MaxOps=2, OpKinds=['filter', 'select', 'merge']),
               ['W_ProperSubset', 'W_ExcludeBites', 'W_SelectOne', 'W_SelectMany', 'W_CustomKeyFiltered', 'W_MergeOfFilter']),
              (dict(OpKinds=['merge'], MaxBases=2, MaxItems=1, DataKeys=['results', 'mydata'], Keys=['k1'], Vals=['v1']),
               ['W_MergeRefused'])]
@@ -660,7 +661,7 @@ def run_c17(ctx):
 
     # code -> spec
     rng = ctx.rng
-    n_random = ctx.pick(3000, 40000)
+    n_random = ctx.pick(3000, 20000)
     batch, byid = [], {}
     for cid in range(1, n_random + 1):
         case = random_case(rng, 'pool' if cid % 2 else 'pool-h')
